@@ -6,7 +6,7 @@
 (* Finished behaviours are printed for replay into the implementation.             *)
 EXTENDS DocWriter, Json
 
-CONSTANTS MacroSig, EnvSig, SpecSig, HasUnknownMacro, HasUnknownEnv, St0, EmitFaulted, EmitPlain
+CONSTANTS MacroSig, EnvSig, SpecSig, HasUnknownMacro, HasUnknownEnv, Sticky, St0, EmitFaulted, EmitPlain
 
 P == INSTANCE Parser WITH VTok <- "intended", VMarker <- "intended", VVerb <- "intended", VPosNone <- "intended"
 
